@@ -1252,7 +1252,7 @@ class Engine:
     def st_Expr(self, s, st):
         if isinstance(s.value, ast.Constant):
             return [(st, None)]  # docstring
-        if isinstance(s.value, ast.Call) and ast.unparse(s.value.func).startswith("log."):
+        if isinstance(s.value, ast.Call) and ast.unparse(s.value.func).startswith(("log.", "logger.", "logging.", "_log.", "LOG.", "warnings.warn")):
             return [(st, None)]  # dropped: logging (listed in extraction_drops)
         if isinstance(s.value, ast.Yield):
             v = self.ev(s.value.value, st)
